@@ -1056,8 +1056,8 @@ func (f *frame) mapKeys(mt types.Type) (dk, vk string, ks, vs *Sort, err error) 
 	if err != nil {
 		return
 	}
-	dk = f.e.regKey("MD:"+typeKey(mt), f.e.Sorts.ArrOf(SRef, f.e.Sorts.ArrOf(ks, SBool)))
-	vk = f.e.regKey("MV:"+typeKey(mt), f.e.Sorts.ArrOf(SRef, f.e.Sorts.ArrOf(ks, vs)))
+	dk = f.e.regKey("MD:"+typeKey(mt.Underlying()), f.e.Sorts.ArrOf(SRef, f.e.Sorts.ArrOf(ks, SBool)))
+	vk = f.e.regKey("MV:"+typeKey(mt.Underlying()), f.e.Sorts.ArrOf(SRef, f.e.Sorts.ArrOf(ks, vs)))
 	return
 }
 
